@@ -58,6 +58,8 @@ pub fn make_data(c: &SortCase) -> Vec<(u32, u32)> {
                     n + h(i, c.salt) % n.max(1)
                 }
             }
+            // random keys; the positions pivot selection samples get extreme keys below
+            11 => h(i, c.salt) % n.max(1),
             // few distinct keys in sorted order (long runs of duplicates); defects are added below
             10 => {
                 let d = if c.distinct > 0 { c.distinct + 1 } else { c.salt % 30 + 2 } as u64;
@@ -66,6 +68,18 @@ pub fn make_data(c: &SortCase) -> Vec<(u32, u32)> {
             _ => i,
         })
         .collect();
+    if c.arrangement == 11 && n >= 8 {
+        // pdqsort samples around n/4, n/2, 3n/4: make the chosen pivot one of the largest (salt even) or smallest keys
+        let top = c.salt % 2 == 0;
+        let mut k = 0u32;
+        for centre in [n / 4, n / 2, n / 4 * 3] {
+            for d in [-1i64, 0, 1] {
+                let at = (centre as i64 + d).clamp(0, n as i64 - 1) as usize;
+                keys[at] = if top { n + 100 - k } else { k / 3 };
+                k += 1;
+            }
+        }
+    }
     if c.arrangement == 10 && n >= 2 {
         let d = if c.distinct > 0 { c.distinct + 1 } else { c.salt % 30 + 2 };
         let defects = 3 + h(77, c.salt) % (n / 40 + 8);
@@ -74,7 +88,7 @@ pub fn make_data(c: &SortCase) -> Vec<(u32, u32)> {
             keys[at] = h(s + 1000, c.salt) % d;
         }
     }
-    if c.distinct > 0 && c.arrangement != 5 && c.arrangement != 10 {
+    if c.distinct > 0 && c.arrangement != 5 && c.arrangement != 10 && c.arrangement != 11 {
         for k in keys.iter_mut() {
             *k %= c.distinct;
         }
@@ -207,8 +221,12 @@ impl Check for C18 {
     fn id(&self) -> &'static str {
         "C18"
     }
+    fn isolate_case(&self, c: &SortCase) -> bool {
+        // a worker-thread panic inside the end-to-end sub-check ends the process
+        c.nucleo_items > 0
+    }
     fn rule(&self) -> String {
-        "slices of (key,id) with lengths {0..3, 19..22, 49..51, 23..2000, 1999..2002, 4001, 4095..4097, 2003..20000, 2^15/2^16/2^17 +-1, 262143, 300000}; arrangements random / sorted / reversed / organ-pipe / saw-tooth / few distinct keys / all equal / sorted-with-swaps / sorted runs of few distinct keys with 3..n/40 overwritten positions (duplicate-heavy, nearly sorted) / McIlroy antiquicksort adversary comparator (forces heapsort and break_patterns); comparator on key only (strict weak order with ties) or (key,id) total order; own rayon pools of 1,2,3,8,16 threads; cancel flag raised by the comparator at its k-th call (0, small, mid, never); plus an end-to-end sub-check: the same items and pattern through Nucleo with 1/2/4/8 worker threads must give identical match lists in the documented order. Oracle: multiset unchanged always; non-decreasing when 'not cancelled' is reported; 'not cancelled' whenever the flag was never raised; equal to slice::sort for total orders and across thread counts. Non-trivial: length > 20 and input not already sorted. Branch labels come from the SORT_* hook counters; one template per branch runs in every run.".into()
+        "slices of (key,id) with lengths {0..3, 19..22, 49..51, 23..2000, 1999..2002, 4001, 4095..4097, 2003..20000, 2^15/2^16/2^17 +-1, 262143, 300000}; arrangements random / sorted / reversed / organ-pipe / saw-tooth / few distinct keys / all equal / sorted-with-swaps / random with the largest or smallest keys at the positions pivot selection samples / sorted runs of few distinct keys with 3..n/40 overwritten positions (duplicate-heavy, nearly sorted) / McIlroy antiquicksort adversary comparator (forces heapsort and break_patterns); comparator on key only (strict weak order with ties) or (key,id) total order; own rayon pools of 1,2,3,8,16 threads; cancel flag raised by the comparator at its k-th call (0, small, mid, never); plus an end-to-end sub-check: the same items and pattern through Nucleo with 1/2/4/8 (and, in a quarter of these cases, 2*cores+1) worker threads must give identical match lists in the documented order. Oracle: multiset unchanged always; non-decreasing when 'not cancelled' is reported; 'not cancelled' whenever the flag was never raised; equal to slice::sort for total orders and across thread counts. Non-trivial: length > 20 and input not already sorted. Branch labels come from the SORT_* hook counters; one template per branch runs in every run.".into()
     }
     fn total_cases(&self, tier: Tier) -> u64 {
         match tier {
@@ -238,6 +256,15 @@ impl Check for C18 {
                 }
             }
         }
+        // the sampled pivot positions hold the largest / smallest keys of a slice with a large and a tiny side
+        for n in [2100u32, 2500, 4001, 9000, 20000] {
+            for salt in 0..6u32 {
+                v.push(SortCase { n, arrangement: 11, salt: salt + n, threads: [1u8, 2, 4][salt as usize % 3], ..b.clone() });
+            }
+        }
+        // more worker threads than cores: per-thread scratch state of the matcher pool
+        v.push(SortCase { n: 100, arrangement: 0, salt: 5, nucleo_items: 6000, ..b.clone() });
+        v.push(SortCase { n: 100, arrangement: 0, salt: 9, nucleo_items: 3000, ..b.clone() });
         // duplicate-heavy nearly sorted slices of every shape (partition_equal after a partial insertion sort)
         for n in [120u32, 400, 1000, 2500, 5000, 12000] {
             for salt in 0..40u32 {
@@ -247,7 +274,7 @@ impl Check for C18 {
         v
     }
     fn strategy(&self, _tier: Tier) -> BoxedStrategy<SortCase> {
-        (sizes(), prop_oneof![26 => Just(0u8), 7 => Just(1u8), 7 => Just(2u8), 7 => Just(3u8), 7 => Just(4u8), 13 => Just(5u8), 4 => Just(6u8), 11 => Just(7u8), 9 => Just(8u8), 9 => Just(9u8), 14 => Just(10u8)], any::<u32>(), prop_oneof![60 => Just(0u32), 40 => 1u32..40], proptest::sample::select(vec![1u8, 2, 3, 8, 16]), prop_oneof![45 => Just((None, None)), 4 => Just((Some(0u32), None)), 8 => (1u32..5000).prop_map(|k| (Some(k), None)), 8 => (5000u32..400000).prop_map(|k| (Some(k), None)), 35 => any::<u16>().prop_map(|f| (None, Some(f)))], any::<bool>(), prop_oneof![90 => Just(0u32), 10 => 1u32..6000], proptest::bool::weighted(0.45), 23u32..1200)
+        (sizes(), prop_oneof![26 => Just(0u8), 7 => Just(1u8), 7 => Just(2u8), 7 => Just(3u8), 7 => Just(4u8), 13 => Just(5u8), 4 => Just(6u8), 11 => Just(7u8), 9 => Just(8u8), 9 => Just(9u8), 14 => Just(10u8), 8 => Just(11u8)], any::<u32>(), prop_oneof![60 => Just(0u32), 40 => 1u32..40], proptest::sample::select(vec![1u8, 2, 3, 8, 16]), prop_oneof![45 => Just((None, None)), 4 => Just((Some(0u32), None)), 8 => (1u32..5000).prop_map(|k| (Some(k), None)), 8 => (5000u32..400000).prop_map(|k| (Some(k), None)), 35 => any::<u16>().prop_map(|f| (None, Some(f)))], any::<bool>(), prop_oneof![90 => Just(0u32), 10 => 1u32..6000], proptest::bool::weighted(0.45), 23u32..1200)
             .prop_map(|(n, arrangement, salt, distinct, threads, (cancel_at, cancel_frac), total, nucleo_items, small, small_n)| {
                 // cancellation inside small (sequential) sorts is only reachable with small slices
                 let n = if cancel_frac.is_some() && small { small_n } else { n };
@@ -259,6 +286,7 @@ impl Check for C18 {
     fn run(&self, c: &SortCase) -> Outcome {
         let mut out = Outcome::default();
         gate::reset();
+        *gate::PANIC_OWNER.lock() = "C18";
         let data = make_data(c);
         BUDGET.with(|b| b.set(None));
         if c.cancel_at.is_none() && c.cancel_frac.is_some() && c.arrangement != 8 {
@@ -386,19 +414,26 @@ fn via_nucleo(c: &SortCase) -> Result<(), (String, String)> {
     let texts: Vec<String> = (0..n)
         .map(|i| {
             let x = h(i, c.salt);
-            let len = 1 + (x % 5) as usize;
+            let len = 1 + (x % if c.salt % 2 == 0 { 5 } else { 10 }) as usize;
             (0..len).map(|k| ["a", "b", "ab", "-a", " "][((x >> (3 * k)) % 5) as usize]).collect::<String>()
         })
         .collect();
     let mut reference: Option<Vec<(u32, u32)>> = None;
-    for threads in [1usize, 2, 4, 8] {
+    // more worker threads than the machine has cores in a quarter of the cases (per-thread scratch state)
+    let cores = std::thread::available_parallelism().map_or(8, |n| n.get());
+    let mut counts = vec![1usize, 2, 4, 8];
+    if c.salt % 4 == 1 {
+        counts.push(2 * cores + 1);
+    }
+    let pattern = if c.salt % 2 == 0 { "a" } else { "aba b" };
+    for threads in counts {
         let mut nuc: Nucleo<u32> = Nucleo::new(Config::DEFAULT, Arc::new(|| {}), Some(threads), 1);
         let inj = nuc.injector();
         for (i, t) in texts.iter().enumerate() {
             let t = t.clone();
             inj.push(i as u32, move |_, cols| cols[0] = t.as_str().into());
         }
-        nuc.pattern.reparse(0, "a", CaseMatching::Smart, Normalization::Smart, false);
+        nuc.pattern.reparse(0, pattern, CaseMatching::Smart, Normalization::Smart, false);
         let mut guard = 0;
         loop {
             let st = nuc.tick(1000);
